@@ -137,14 +137,18 @@ def run(rep, tier):
     parts = []
     total_expected = 0
     for n in range(1, Nmax + 1):
-        P, cons = allsat.pairing_vars(n)
+        # the case formula is a conjunction of two independent parts (pairing table, solver configuration): each part is enumerated by
+        # AllSAT and the models are combined (one joint AllSAT over 47 000 models spends its time in the blocking clauses)
+        P, consP = allsat.pairing_vars(n)
         E, X, Y = z3.Int("entry"), z3.Int("x"), z3.Int("y")
-        cons = cons + [z3.Or(
+        consC = [z3.Or(
             z3.And(E == 0, X >= -1, X <= 5, Y >= -1, Y <= 5),      # direct calls, two in a row on one object
             z3.And(E == 1, X >= 0, X <= 5, Y == 0),                # dot_bracket, HiGHS available with behaviour X
             z3.And(E == 2, X >= -1, X <= 5, Y == 0))]              # dot_bracket, HiGHS absent, default solver X (None = -1)
-        models, nq, dt = allsat.allsat(P + [E, X, Y], cons)
-        inputs = [(m[:n], m[n], m[n + 1], m[n + 2]) for m in models]
+        mp, nq1, dt1 = allsat.allsat(P, consP)
+        mc, nq2, dt2 = allsat.allsat([E, X, Y], consC)
+        nq, dt = nq1 + nq2, dt1 + dt2
+        inputs = [(p_, c_[0], c_[1], c_[2]) for p_ in mp for c_ in mc]
         exp = len(list(all_pairings(n))) * (49 + 6 + 7)
         rep.add(transitions=nq, solver_s=dt)
         if len(inputs) != exp:
